@@ -12,6 +12,8 @@ import SkfemVerif.Drv.RefineUniformDrv
 import SkfemVerif.Drv.Autodiff
 import SkfemVerif.Drv.Affine
 import SkfemVerif.Drv.Cache
+import SkfemVerif.Drv.Blocks
+import SkfemVerif.Drv.Refine
 /-
 Registry of driver ops contributed by the per-area files: add an import and `++ xxxOps`.
 -/
@@ -19,6 +21,6 @@ open Lean
 namespace Drv
 
 def allOps : List (String × (Json → Option Json)) :=
-  bcOps ++ quadOps ++ asmOps ++ polyOps ++ integrationOps ++ meshioOps ++ conformityOps ++ surgeryOps ++ dofLookupOps ++ refineUniformOps ++ autodiffOps ++ affineOps ++ cacheOps
+  bcOps ++ quadOps ++ asmOps ++ polyOps ++ integrationOps ++ meshioOps ++ conformityOps ++ surgeryOps ++ dofLookupOps ++ refineUniformOps ++ autodiffOps ++ affineOps ++ cacheOps ++ blocksOps ++ refineOps
 
 end Drv
